@@ -131,7 +131,8 @@ pub enum Path {
 pub enum Op {
     Proc { path: Path, slack_in: usize, slack_out: usize, mask: Option<Vec<bool>>, empty_inactive: bool },
     /// frac: Some(f) -> supply max(1, floor(f*needed)) frames (< needed when needed>1); None -> flush call
-    Partial { frac: Option<f64>, into: bool, mask: Option<Vec<bool>> },
+    /// ragged: Some(seed) -> the channels of the partial input have different lengths (1..=k each, one of them k)
+    Partial { frac: Option<f64>, into: bool, mask: Option<Vec<bool>>, ragged: Option<u64> },
     SetRatio { v: f64, ramp: bool, rel: bool },
     SetChunk(usize),
     Reset,
@@ -152,7 +153,7 @@ impl Op {
                 }
                 o
             }
-            Op::Partial { frac, into, mask } => {
+            Op::Partial { frac, into, mask, ragged } => {
                 let mut o = J::obj().with("op", J::s(if *into { "process_partial_into_buffer" } else { "process_partial" }));
                 match frac {
                     Some(f) => o.set("frac", J::f(*f)),
@@ -160,6 +161,9 @@ impl Op {
                 };
                 if let Some(m) = mask {
                     o.set("mask", J::Arr(m.iter().map(|b| J::b(*b)).collect()));
+                }
+                if let Some(r) = ragged {
+                    o.set("ragged_channel_lengths_seed", J::Int(*r as i128));
                 }
                 o
             }
@@ -187,6 +191,21 @@ impl Op {
             Op::SetChunk(_) => 'c',
             Op::Reset => 'z',
         }
+    }
+}
+
+/// frames supplied for channel `ch` of a partial call that supplies `k` frames at most
+pub fn partial_len(k: usize, ragged: Option<u64>, ch: usize, nch: usize) -> usize {
+    match ragged {
+        Some(seed) if k > 1 && nch > 1 => {
+            let full = (crate::rng::mix(&[seed, 0xabc]) % nch as u64) as usize;
+            if ch == full {
+                k
+            } else {
+                1 + (crate::rng::mix(&[seed, ch as u64]) % k as u64) as usize
+            }
+        }
+        _ => k,
     }
 }
 
@@ -543,7 +562,7 @@ impl<T: Smp> Runner<T> {
                     self.model.cur = self.model.tgt;
                 }
             }
-            Op::Partial { frac, into, mask } => {
+            Op::Partial { frac, into, mask, ragged } => {
                 self.calls += 1;
                 let n_in = g.in_next;
                 let kfr = match frac {
@@ -559,7 +578,13 @@ impl<T: Smp> Runner<T> {
                     }
                     None => None,
                 };
-                let wi = kfr.map(|k| self.make_input(k, 0, mask, false));
+                let wi = kfr.map(|k| {
+                    let mut w = self.make_input(k, 0, mask, false);
+                    for (ch, c) in w.iter_mut().enumerate() {
+                        c.truncate(partial_len(k, *ragged, ch, nch));
+                    }
+                    w
+                });
                 self.sent_k = self.sent_k.wrapping_add(1) & 0xFFF;
                 let k = self.sent_k;
                 if *into {
@@ -779,7 +804,7 @@ pub fn gen_history(rng: &mut Rng, c: &Cfg, p: &HistProfile) -> Vec<Op> {
             Op::Reset
         } else if x < rw + cw + zw + pw {
             let frac = if rng.chance(0.35) { None } else { Some(rng.f()) };
-            Op::Partial { frac, into: rng.bool(), mask }
+            Op::Partial { frac, into: rng.bool(), mask, ragged: if rng.chance(0.3) { Some(rng.next()) } else { None } }
         } else {
             gen_proc(rng, c, mask, p.allow_vecs)
         };
@@ -858,13 +883,19 @@ pub enum Bad {
 #[derive(Clone, Debug)]
 pub struct BadCall {
     pub bad: Bad,
+    /// a mask of the right length passed along with the malformed buffers (the short channel is active)
+    pub mask: Option<Vec<bool>>,
     /// through process() instead of process_into_buffer (input / mask shapes only)
     pub via_process: bool,
 }
 
 impl BadCall {
     pub fn json(&self) -> J {
-        J::obj().with("op", J::s("malformed")).with("shape", J::s(&format!("{:?}", self.bad))).with("via_process", J::b(self.via_process))
+        J::obj()
+            .with("op", J::s("malformed"))
+            .with("shape", J::s(&format!("{:?}", self.bad)))
+            .with("via_process", J::b(self.via_process))
+            .with("mask", self.mask.as_ref().map(|m| J::Arr(m.iter().map(|b| J::b(*b)).collect())).unwrap_or(J::Null))
     }
 }
 
@@ -886,7 +917,17 @@ pub fn gen_bad(rng: &mut Rng, nch: usize) -> BadCall {
         }
     };
     let via_process = matches!(bad, Bad::InChannels(_) | Bad::InShort { .. } | Bad::MaskLen(_)) && rng.chance(0.3);
-    BadCall { bad, via_process }
+    let mask = if !matches!(bad, Bad::MaskLen(_)) && rng.chance(0.45) {
+        let mut m: Vec<bool> = (0..nch).map(|_| rng.bool()).collect();
+        match &bad {
+            Bad::InShort { ch, .. } | Bad::OutShort { ch, .. } => m[*ch] = true,
+            _ => {}
+        }
+        Some(m)
+    } else {
+        None
+    };
+    BadCall { bad, mask, via_process }
 }
 
 /// Outcome of a malformed call: list of C13 clause violations (empty = behaved as documented),
@@ -900,7 +941,7 @@ pub fn do_bad_call<T: Smp>(run: &mut Runner<T>, bc: &BadCall) -> (bool, Vec<(&'s
     let mut n_out_ch = nch;
     let mut in_len = vec![g.in_next; nch.max(8) + 4];
     let mut out_len = vec![g.out_next; nch.max(8) + 4];
-    let mut mask: Option<Vec<bool>> = None;
+    let mut mask: Option<Vec<bool>> = bc.mask.clone();
     let expect: String;
     match &bc.bad {
         Bad::InChannels(n) => {
